@@ -158,7 +158,8 @@ class SICDDetails(NITFDetails):
 
         if self._nitf_header.ImageSegments.subhead_sizes.size == 0:
             raise SarpyIOError('There are no image segments defined.')
-        if self._nitf_header.GraphicsSegments.item_sizes.size > 0:
+        graphics = getattr(self._nitf_header, 'GraphicsSegments', None)  # NB: not defined for NITF 2.0
+        if graphics is not None and graphics.item_sizes.size > 0:
             raise SarpyIOError('A SICD file does not allow for graphics segments.')
         if self._nitf_header.DataExtensions.subhead_sizes.size == 0:
             raise SarpyIOError(
